@@ -250,12 +250,10 @@ def classify(op, a, b, got, exp):
     if g == 'concat':
         bad = []
         if isinstance(obs, str):
-            ra, rb = ref.render_exact(a), ref.render_exact(b)
-            if not any(ref.render_accepts(obs[:i], a) for i in range(len(obs) + 1)
-                       if rb is None or obs[i:] == rb):
+            # an operand is blamed when no prefix (suffix) of the result is a rendering of it
+            if not any(ref.render_accepts(obs[:i], a) for i in range(len(obs) + 1)):
                 bad.append(classes[0] if classes[0] != 'number' else _number_class(a))
-            if not any(ref.render_accepts(obs[i:], b) for i in range(len(obs) + 1)
-                       if ra is None or obs[:i] == ra):
+            if not any(ref.render_accepts(obs[i:], b) for i in range(len(obs) + 1)):
                 bad.append(classes[1] if classes[1] != 'number' else _number_class(b))
         return 'concat/rendering-of-' + ('+'.join(sorted(set(bad))) if bad else 'operands')
     if g == 'compare':
